@@ -602,137 +602,7 @@ theorem readAll_safe (cfg : Cfg) (hl : cfg.legacy = false) (size : Nat) :
     | err e => exact Or.inr ⟨e, rfl⟩
     | fault f => exact absurd hok (by simp [RetOk])
 
-/-! ## Part 3: the write side -/
-
-/-- every HAWK_TIO_DATA call of the write side stays within the staging capacity -/
-def SinkOk (cfg : Cfg) (o : OutSt) : Prop := ∀ ch ∈ o.sink, ch.length ≤ cfg.capa
-
-theorem flush_all (o : OutSt) : (flush o).all = o.all := by
-  unfold flush OutSt.all; split <;> simp_all
-
-theorem flush_sinkOk (cfg : Cfg) (o : OutSt) (h : SinkOk cfg o) (hb : o.buf.length ≤ cfg.capa) : SinkOk cfg (flush o) := by
-  unfold flush; split
-  · exact h
-  · intro ch hch; simp at hch; rcases hch with hch | rfl
-    · exact h ch hch
-    · exact hb
-
-theorem fullStep (cfg : Cfg) (o1 : OutSt) (hs : SinkOk cfg o1) (hle : o1.buf.length ≤ cfg.capa) (hc : 0 < cfg.capa) :
-    (if decide (o1.buf.length ≥ cfg.capa) = true then flush o1 else o1).all = o1.all ∧
-    (if decide (o1.buf.length ≥ cfg.capa) = true then flush o1 else o1).buf.length < cfg.capa ∧
-    SinkOk cfg (if decide (o1.buf.length ≥ cfg.capa) = true then flush o1 else o1) := by
-  by_cases h : o1.buf.length ≥ cfg.capa
-  · simp only [h, decide_true, if_true]
-    exact ⟨flush_all o1, by rw [flush_buf]; exact hc, flush_sinkOk cfg o1 hs hle⟩
-  · have e : (if decide (o1.buf.length ≥ cfg.capa) = true then flush o1 else o1) = o1 := by simp [h]
-    rw [e]
-    exact ⟨rfl, by omega, hs⟩
-
-theorem writeULoop_nil (cfg : Cfg) (o : OutSt) (nl : Bool) : writeULoop cfg [] o nl = (o, nl, none) := by
-  rw [writeULoop]; simp
-
-/-- the conversion loop of `hawk_tio_writeuchars` on BMP characters: everything is staged or handed out, in order -/
-theorem writeULoop_bmp (cfg : Cfg) (hT : cfg.tbl = T) (hc : 3 ≤ cfg.capa) :
-    ∀ (k : Nat) (ws : List Nat) (o : OutSt) (nl : Bool), 2 * ws.length + (if o.buf = [] then 0 else 1) ≤ k →
-      BMP ws → o.buf.length < cfg.capa → SinkOk cfg o →
-      ∃ o' nl', writeULoop cfg ws o nl = (o', nl', none) ∧ o'.all = o.all ++ encodeAll T ws ∧
-        o'.buf.length < cfg.capa ∧ SinkOk cfg o' := by
-  intro k
-  induction k with
-  | zero =>
-    intro ws o nl hk hb hl hs
-    have : ws = [] := List.eq_nil_of_length_eq_zero (by omega)
-    subst this
-    exact ⟨o, nl, writeULoop_nil .., by simp [encodeAll_nil], hl, hs⟩
-  | succ k ih =>
-    intro ws o nl hk hb hl hs
-    by_cases hw : ws = []
-    · subst hw; exact ⟨o, nl, writeULoop_nil .., by simp [encodeAll_nil], hl, hs⟩
-    · have hwl : 0 < ws.length := List.length_pos_iff.mpr hw
-      obtain ⟨x, n, bs, hcv, hn, hbs, hlen, hx⟩ := convUtoB_bmp ws hb (cfg.capa - o.buf.length)
-      have hsplit : encodeAll T ws = bs ++ encodeAll T (ws.drop n) := by
-        rw [hbs, ← encodeAll_append, List.take_append_drop]
-      rw [writeULoop, dif_neg hw, hT, hcv]
-      simp only
-      rcases hx with ⟨rfl, rfl⟩ | ⟨rfl, c, rest, hd, hlt⟩
-      · -- everything converted
-        have hne : ws.length ≠ 0 := by omega
-        simp only [show ((0 : Int) = -2) = False by decide, if_false, show ¬ ((0 : Int) ≤ -1) by decide, dif_neg hne,
-          List.drop_length]
-        rw [writeULoop_nil]
-        simp only [List.drop_length, encodeAll_nil, List.append_nil] at hsplit
-        obtain ⟨h1, h2, h3⟩ := fullStep cfg { o with buf := o.buf ++ bs } hs (by simp at hlen ⊢; omega) (by omega)
-        refine ⟨_, _, rfl, ?_, h2, h3⟩
-        rw [h1, hsplit]; simp [OutSt.all]
-      · -- the next character does not fit: flush and continue
-        simp only [if_true]
-        have hcb : c < 65536 := by
-          have : c ∈ ws := List.mem_of_mem_drop (by rw [hd]; simp)
-          exact hb c this
-        have hnprog : ¬ (n = 0 ∧ o.buf = []) := by
-          rintro ⟨rfl, hbuf⟩
-          simp [encodeAll_nil] at hbs
-          subst hbs
-          have := (enc_len c hcb).2
-          simp [hbuf] at hlt
-          omega
-        rw [dif_neg hnprog]
-        have hbd : BMP (ws.drop n) := fun x hx => hb x (List.mem_of_mem_drop hx)
-        have hmeas : 2 * (ws.drop n).length + (if (flush { o with buf := o.buf ++ bs }).buf = [] then 0 else 1) ≤ k := by
-          rw [flush_buf]; simp
-          by_cases hn0 : n = 0
-          · subst hn0
-            have : o.buf ≠ [] := fun h => hnprog ⟨rfl, h⟩
-            simp [this] at hk; simp; omega
-          · split at hk <;> omega
-        obtain ⟨o', nl', hrec, hall, hlen', hs'⟩ := ih (ws.drop n) (flush { o with buf := o.buf ++ bs }) false hmeas hbd
-          (by rw [flush_buf]; simp; omega) (flush_sinkOk cfg _ hs (by simp at hlen ⊢; omega))
-        refine ⟨o', nl', hrec, ?_, hlen', hs'⟩
-        rw [hall, flush_all, hsplit]
-        simp [OutSt.all]
-
-
-
-/-- `hawk_tio_writeuchars` on BMP characters -/
-theorem writeUchars_bmp (cfg : Cfg) (hT : cfg.tbl = T) (hc : 3 ≤ cfg.capa) (ws : List Nat) (o : OutSt)
-    (hb : BMP ws) (hl : o.buf.length < cfg.capa) (hs : SinkOk cfg o) :
-    ∃ o', writeUchars cfg ws o = (o', none) ∧ o'.all = o.all ++ encodeAll T ws ∧ o'.buf.length < cfg.capa ∧ SinkOk cfg o' := by
-  obtain ⟨o', nl', hw, hall, hlen, hs'⟩ := writeULoop_bmp cfg hT hc _ ws o false (Nat.le_refl _) hb hl hs
-  unfold writeUchars
-  rw [if_neg (by omega), hw]
-  simp only
-  cases nl' with
-  | true =>
-    refine ⟨flush o', by simp, by rw [flush_all, hall], by rw [flush_buf]; simp; omega, flush_sinkOk cfg o' hs' (by omega)⟩
-  | false => exact ⟨o', by simp, hall, hlen, hs'⟩
-
-/-- a sequence of `hawk_tio_writeuchars` calls (`fst` = state, `snd` = whether every call succeeded) -/
-def writeMany (cfg : Cfg) : List (List Nat) → OutSt → OutSt × Bool
-  | [], o => (o, true)
-  | ws :: rest, o =>
-    match writeUchars cfg ws o with
-    | (o', none) => writeMany cfg rest o'
-    | (o', some _) => (o', false)
-
-theorem writeMany_bmp (cfg : Cfg) (hT : cfg.tbl = T) (hc : 3 ≤ cfg.capa) :
-    ∀ (segs : List (List Nat)) (o : OutSt), BMP segs.flatten → o.buf.length < cfg.capa → SinkOk cfg o →
-      (writeMany cfg segs o).2 = true ∧ (writeMany cfg segs o).1.all = o.all ++ encodeAll T segs.flatten ∧
-      SinkOk cfg (writeMany cfg segs o).1 := by
-  intro segs
-  induction segs with
-  | nil => intro o _ _ hs; simp [writeMany, encodeAll_nil, hs]
-  | cons ws rest ih =>
-    intro o hb hl hs
-    have hb1 : BMP ws := fun c hc => hb c (by simp [hc])
-    have hb2 : BMP rest.flatten := fun c hc => hb c (by simp at hc ⊢; exact Or.inr hc)
-    obtain ⟨o', hw, hall, hlen, hs'⟩ := writeUchars_bmp cfg hT hc ws o hb1 hl hs
-    obtain ⟨h1, h2, h3⟩ := ih o' hb2 hlen hs'
-    rw [writeMany, hw]
-    simp only
-    refine ⟨h1, ?_, h3⟩
-    rw [h2, hall]; simp [encodeAll_append]
-
-/-! ## Part 4: byte-mode reads -/
+/-! ## Part 3: byte-mode reads -/
 
 theorem copyBytes_spec : ∀ (l : List UInt8) (room : Nat),
     (copyBytes l room).1 <+: l ∧ (copyBytes l room).1.length ≤ room ∧
@@ -860,48 +730,5 @@ theorem readAllBytes_spec (cfg : Cfg) (hc : 1 ≤ cfg.capa) (size : Nat) (hs : 1
         rw [pending_remaining, pending_remaining, hrem]; simp; omega
       simp only [List.nil_append]
       rw [dif_pos hp, ih st' (by rw [hrem] at hk; simp at hk; omega) hne', hrem]
-
-/-! ## Part 5: byte writes -/
-theorem writeBBig_spec (cfg : Cfg) : ∀ (n : Nat) (bs : List UInt8) (o : OutSt), bs.length ≤ n → SinkOk cfg o →
-    o.buf.length < cfg.capa →
-    (writeBBig cfg bs o).2.all ++ (writeBBig cfg bs o).1 = o.all ++ bs ∧ SinkOk cfg (writeBBig cfg bs o).2 ∧
-    (writeBBig cfg bs o).2.buf.length + (writeBBig cfg bs o).1.length < cfg.capa := by
-  intro n
-  induction n with
-  | zero =>
-    intro bs o h hs hl
-    have : bs = [] := List.eq_nil_of_length_eq_zero (by omega)
-    subst this
-    rw [writeBBig, dif_neg (by simp)]
-    exact ⟨by simp, hs, by simpa using hl⟩
-  | succ n ih =>
-    intro bs o h hs hl
-    rw [writeBBig]
-    by_cases hc : bs.length ≥ cfg.capa - o.buf.length ∧ cfg.capa - o.buf.length > 0
-    · rw [dif_pos hc]
-      have hlen : (o.buf ++ bs.take (cfg.capa - o.buf.length)).length ≤ cfg.capa := by
-        simp [List.length_take]; omega
-      obtain ⟨h1, h2, h3⟩ := ih (bs.drop (cfg.capa - o.buf.length))
-        (flush { o with buf := o.buf ++ bs.take (cfg.capa - o.buf.length) }) (by simp; omega)
-        (flush_sinkOk cfg _ hs hlen) (by rw [flush_buf]; simp; omega)
-      refine ⟨?_, h2, h3⟩
-      rw [h1, flush_all]
-      simp [OutSt.all]
-    · rw [dif_neg hc]
-      exact ⟨rfl, hs, by simp at hc ⊢; omega⟩
-
-/-- `hawk_tio_writebchars`: the bytes handed out followed by the bytes staged grow by exactly the bytes written -/
-theorem writeBchars_spec (cfg : Cfg) (bs : List UInt8) (o : OutSt) (hs : SinkOk cfg o) (hl : o.buf.length < cfg.capa) :
-    (writeBchars cfg bs o).2 = none ∧ (writeBchars cfg bs o).1.all = o.all ++ bs ∧ SinkOk cfg (writeBchars cfg bs o).1 ∧
-    (writeBchars cfg bs o).1.buf.length < cfg.capa := by
-  obtain ⟨h1, h2, h3⟩ := writeBBig_spec cfg bs.length bs o (Nat.le_refl _) hs hl
-  unfold writeBchars
-  rw [if_neg (by omega)]
-  simp only
-  have hall : ({ (writeBBig cfg bs o).2 with buf := (writeBBig cfg bs o).2.buf ++ (writeBBig cfg bs o).1 } : OutSt).all = o.all ++ bs := by
-    rw [← h1]; simp [OutSt.all]
-  split
-  · refine ⟨trivial, by rw [flush_all, hall], flush_sinkOk cfg _ h2 (by simp; omega), by rw [flush_buf]; simp; omega⟩
-  · exact ⟨trivial, hall, h2, by simp; omega⟩
 
 end Hawk.Tio
